@@ -682,6 +682,7 @@ func cueShapes() []Shape {
 // allShapes returns the hand-rendered shapes, sorted by (format, size, name).
 func allShapes() []Shape {
 	out := append(append(jsonSchemaShapes(), openAPIShapes()...), cueShapes()...)
+	out = append(out, structDefaultShapes()...)
 	seen := map[string]bool{}
 	for _, s := range out {
 		k := s.Format + "/" + s.Name
